@@ -66,6 +66,14 @@ def gen_abstract(rng, fmt):
     nre = rng.randint(1, maxre)
     npr = rng.randint(0, maxpr) if fmt not in ("umist",) else rng.randint(1, maxpr)
     re_, pr_ = pick_species(rng, nre, pool), pick_species(rng, npr, pool)
+    # surface species (default prefix `#`), also as the very first token of a line
+    # (KROME: `#` opens a comment line; Leeds: the class has its own prefix `G`)
+    if rng.random() < 0.2 and fmt in ("kida", "umist", "uclchem", "naunet"):
+        re_[0] = rng.choice(["#CO", "#H2O", "#H", "#CH4"])
+        if pr_ and rng.random() < 0.5:
+            pr_[0] = re_[0][1:]
+    elif rng.random() < 0.15 and fmt == "leeds":
+        re_[0] = rng.choice(["GCO", "GH2O", "GH"])
     # names that fill a fixed-width column completely are legal only in the last column of a block
     if fmt == "kida" and nre == 3 and rng.random() < 0.3:
         re_[2] = "CH3COOCH3H+"
@@ -259,12 +267,13 @@ def fclose(a, b, rel=1e-3):
     return abs(a - b) <= rel * max(abs(a), abs(b), 1e-300)
 
 
-def read_network(fmt, path):
+def read_network(fmt, path, surface_prefix=None):
     from naunet.network import Network
     from .ode_checks import reset_species_state
     reset_species_state()
+    kw = {"species_kwargs": {"grain_symbol": "GRAIN", "surface_prefix": surface_prefix, "bulk_prefix": "@"}} if surface_prefix else {}
     with silenced():
-        return Network(filelist=[str(path)], fileformats=[fmt], elements=list(ELEMENTS), pseudo_elements=list(PSEUDO))
+        return Network(filelist=[str(path)], fileformats=[fmt], elements=list(ELEMENTS), pseudo_elements=list(PSEUDO), **kw)
 
 
 def run_c07(argv):
@@ -430,12 +439,16 @@ def run_c18(argv):
             try:
                 with silenced():
                     net.write(w1, "naunet")
-                n1 = read_network("naunet", w1)
+                # (the native file is read under the project's own symbol convention: Leeds networks mark ices with `G`)
+                sp = "G" if fmt == "leeds" else None
+                n1 = read_network("naunet", w1, sp)
                 with silenced():
                     n1.write(w2, "naunet")
-                n2 = read_network("naunet", w2)
+                n2 = read_network("naunet", w2, sp)
             except Exception as e:
-                chk.violation({"kind": "cycle-raised", "input_format": fmt, "error": type(e).__name__},
+                gices = sorted({s.name for r in net.reaction_list for s in r.reactants + r.products if s.is_surface and s.name.startswith("G")})
+                cause = "non-default-surface-prefix" if gices and any(f"{g} starts with" in str(e) for g in gices) else "other"
+                chk.violation({"kind": "cycle-raised", "input_format": fmt, "error": type(e).__name__, "cause": cause},
                               f"write/read cycle of a {fmt} network raised {type(e).__name__}: {e}", input=show)
                 continue
             t1, t2 = w1.read_text(), w2.read_text()
